@@ -39,7 +39,11 @@ struct Cb {
 #ifndef THREADING
 #define THREADING VMutexOnlyThreading
 #endif
+#ifdef CBFUNC
+struct Pol { using Threading = THREADING; };            // default callback storage: std::function
+#else
 struct Pol { using Threading = THREADING; using Callback = Cb; };
+#endif
 using CL = eventpp::CallbackList<void(uint32_t, uint32_t), Pol>;
 
 struct Model {
@@ -80,9 +84,11 @@ static void observe(St * st, Model & m, bool final_step)
 	if(m.cnt >= 2) vf_cover(COV_INVOKE2);
 	// forEach with (handle, callback): same content, each handle owned and equal to the one handed out
 	int n = 0; bool ok = true;
-	st->list.forEach([&](const CL::Handle & h, const Cb & cb) {
+	st->list.forEach([&](const CL::Handle & h, const CL::Callback & cb) {
 		if(n < m.cnt) {
+#ifndef CBFUNC
 			if(!(cb.id == m.id[m.order[n]])) ok = false;
+#endif
 			auto p = h.lock(); auto q = st->hs[m.order[n]].lock();
 			if(!p || p != q) ok = false;
 		}
@@ -91,7 +97,7 @@ static void observe(St * st, Model & m, bool final_step)
 	vf_assert(n == m.cnt, 15); vf_assert(ok, 16);
 	// forEach with (callback) only
 	n = 0;
-	st->list.forEach([&](const Cb &) { ++n; });
+	st->list.forEach([&](const CL::Callback &) { ++n; });
 	vf_assert(n == m.cnt, 17);
 	// ownsHandle for every handle ever handed out and for the empty handle
 	for(int s = 0; s <= MAXN; s++) {
@@ -101,11 +107,12 @@ static void observe(St * st, Model & m, bool final_step)
 		// forEachIf stops exactly where asked (symbolic stop position)
 		uint32_t stop = vf_nondet_u32();
 		n = 0;
-		bool r = st->list.forEachIf([&](const Cb &) -> bool { return (uint32_t)(n++) != stop; });
+		bool r = st->list.forEachIf([&](const CL::Callback &) -> bool { return (uint32_t)(n++) != stop; });
 		bool expectAll = stop >= (uint32_t)m.cnt;
 		vf_assert(r == expectAll, 19);
 		vf_assert((uint32_t)n == (expectAll ? (uint32_t)m.cnt : stop + 1u), 20);
 		if(! expectAll) vf_cover(COV_FEI_STOP);
+#ifndef CBFUNC
 		// hasListener for an arbitrary probe id
 		uint32_t probe = vf_nondet_u32();
 		bool has = eventpp::hasListener(st->list, Cb(probe));
@@ -113,13 +120,20 @@ static void observe(St * st, Model & m, bool final_step)
 		for(int i = 0; i < m.cnt; i++) if(m.id[m.order[i]] == probe) want = true;
 		vf_assert(has == want, 21);
 		if(has) vf_cover(COV_HAS_TRUE);
+#endif
 	}
 }
 
 extern "C" void harness()
 {
 	g_tr.clear();
+#ifdef HAVOC
+	// C20: the object is constructed in storage that previously held arbitrary bytes
+	void * raw = malloc(sizeof(St)); vf_havoc(raw, sizeof(St));
+	St * st = new (raw) St;
+#else
 	St * st = new St();
+#endif
 	Model m{};
 #ifdef WRAP
 	// C19: place the generation counter W steps before the wrap; where exactly is the solver's choice
@@ -140,6 +154,7 @@ extern "C" void harness()
 			uint32_t id = vf_nondet_u32();
 			st->hs[m.alloc] = st->list.prepend(Cb(id)); m.add_at(0, id);
 		}
+#ifndef CBFUNC
 		else if(op == 2) {
 			uint32_t probe = vf_nondet_u32();
 			bool r = eventpp::removeListener(st->list, Cb(probe));
@@ -148,6 +163,9 @@ extern "C" void harness()
 			vf_assert(r == (victim >= 0), 1);
 			if(victim >= 0) { m.remove(victim); vf_cover(COV_RL_FOUND); }
 		}
+#else
+		else if(op == 2) { }
+#endif
 		else if(op < 3 + nh) {
 			unsigned s = op - 3; if(s == (unsigned)m.alloc) s = MAXN;
 			uint32_t id = vf_nondet_u32();
@@ -177,7 +195,11 @@ extern "C" void harness()
 		vf_assert(g_bad == 0, 31);
 #endif
 	}
+#ifdef HAVOC
+	st->~St(); free(raw);
+#else
 	delete st;
+#endif
 #ifdef TRACKED
 	vf_assert(g_live_cb == 0, 32);
 	vf_assert(g_bad == 0, 33);
